@@ -1212,7 +1212,7 @@ impl<D> ChangeSet<D> {
     ensures
         current is None,
     decreases current,
-@before 2 `stmt:if`
+@before 1 `stmt:if ^ item.is_deleted()`
     let ghost vx_d0 = delta@;
     let ghost vx_p0 = last_op;
     proof {
@@ -1229,7 +1229,7 @@ impl<D> ChangeSet<D> {
             assert(ops_of(vx_d0.push(c)) =~= ops_of(vx_d0).push(op_of(c)));
         }
     }
-@after 2 `stmt:if`
+@after 1 `stmt:if ^ item.is_deleted()`
     proof {
         let v = item.view_of();
         let f = feed(ops_of(vx_d0), pend_of(vx_p0), item_op(txn, v));
